@@ -773,6 +773,12 @@ def run_inproc(ctx, root):
                 dct["diff"] = ",".join(sorted(set(dct["diff"].split(",")) - {"-"} | {"funcs"}))
         same = all(bc[k] == mc[k] for k in ("st", "sub", "par", "cv", "w0", "w1", "diff"))
         changes, sub_in_subshells = own_filter(c, par, sub, changes, bc, mc)
+        cb = base_ctx(c)
+        if cb.startswith("bgw-") and cb.endswith("-errexit") and mc["st"] == "none" and mc.get("leak", "-") == "-" \
+                and bc["st"] == "none" and bc["diff"] == mc["diff"]:
+            # the parent's own `set -e` acted on the status `wait %N` gave it (as in bash): it stops, errexit still on
+            changes = [ch for ch in changes if not (ch.startswith("the parent did not continue") or
+                                                    ch.startswith("Shell.~options.exit_on_nonzero"))]
         sub_all, sub = sub, sub_in_subshells      # classification looks only at what ran in subshells
         in_guard = not any(is_world(t) for t in sub)
         if same:
@@ -906,7 +912,11 @@ E2E_CTXS = {
     "bg_func_spec": 'W() { { %s; } & wait %%1; e2ef=done; }; e2ef=; W; [ "$e2ef" = done ] && unset e2ef; unset -f W',
     "bg_errexit_spec": "set -e; { %s; } & wait %%1; set +e",
 }
-E2E_NOBASH = ("bg_errexit_spec",)     # bash's `wait %N` returns the job's status, which `set -e` then acts on
+E2E_NOBASH = ()
+# `wait %N` returns the job's status and the parent's own `set -e` acts on it (bash and brush): in that context only
+# jobs that end with status 0 leave the parent running
+E2E_OWN_ERREXIT = ("bg_errexit_spec",)
+E2E_CF_ZERO = ["exit 0", "break", "continue", "x=1; break 2", ":"]
 E2E_CF = ["exit 3", "exit 0", "break", "continue", "return 4", "set -e; false", "false", "x=1; break 2", "exit"]
 DROP_VARS = re.compile(r"^declare -[-\w]+ (_|PIPESTATUS|BASH_CMDS|BASH_COMMAND|LINENO|RANDOM|SRANDOM|SECONDS|EPOCHSECONDS|EPOCHREALTIME|"
                        r"BASHPID|BASH_LINENO|BASH_ARGC|BASH_ARGV|BASH_SOURCE|FUNCNAME|COPROC|COPROC_PID|BASH_SUBSHELL|PPID)\b")
@@ -1152,7 +1162,7 @@ def end_to_end(ctx, root):
     rng = ctx.rng
     jobs = []
     # every mutator alone in the three most used contexts + as a pipeline stage of its own; rotating through the rest
-    rest = [c for c in E2E_CTXS if c not in ("paren", "stage", "stage_mid", "stage_last")]
+    rest = [c for c in E2E_CTXS if c not in ("paren", "stage", "stage_mid", "stage_last") + E2E_OWN_ERREXIT]
     for i, m in enumerate(E2E_MUTS):
         jobs.append((root, "brush", "paren", [m], "plain"))
         jobs.append((root, "brush", "stage", [m], "plain"))
@@ -1175,11 +1185,11 @@ def end_to_end(ctx, root):
                     jobs.append((root, "brush", "X/%s/%s/%s" % (frame, lp, base), [m], "plain"))
     # control flow in a background job x every job-spec synchronisation / frame
     for c in ("bg", "bg_spec", "bg_spec2", "bg_loop_spec", "bg_func_spec", "bg_errexit_spec"):
-        for m in E2E_CF:
+        for m in (E2E_CF_ZERO if c in E2E_OWN_ERREXIT else E2E_CF):
             jobs.append((root, "brush", c, [m], "plain"))
-            jobs.append((root, "brush", c, ["gs=job", m, "gs=after"], "plain"))
+            jobs.append((root, "brush", c, ["gs=job", m, "gs=after"] if c not in E2E_OWN_ERREXIT else ["gs=job", m], "plain"))
     for _ in range(ctx.size(200, 2500)):
-        c = rng.choice([k for k in E2E_CTXS if not k.startswith("stage")])
+        c = rng.choice([k for k in E2E_CTXS if not k.startswith("stage") and k not in E2E_OWN_ERREXIT])
         ms = [rng.choice(E2E_MUTS) for _ in range(rng.randint(2, 7))]
         jobs.append((root, "brush", c, ms, "plain"))
     safe_par = [m for m in E2E_MUTS if not m.startswith(("exit", "exec >", "exec 2>", "exec <", "set -e", "{ set -e", "return", "break", "continue",
@@ -1225,7 +1235,7 @@ def end_to_end(ctx, root):
     # context sweep: a sample of the plain cases re-run with the parent itself inside another execution context,
     # under options that must not matter, nested two deep, and a second time in the same shell
     plain = [j for j in jobs if j[4] == "plain" and not j[2].startswith(("X/", "stage")) and j[2] in E2E_CTXS
-             and j[2] not in E2E_NOBASH]
+             and j[2] not in E2E_OWN_ERREXIT]
     sample = [plain[i] for i in sorted(rng.sample(range(len(plain)), min(len(plain), ctx.size(10, 120))))]
     for (_, _, c, ms, _) in sample:
         cmd = E2E_CTXS[c] % "; ".join(ms)
